@@ -19,11 +19,11 @@ theorem u8_append (v : UInt8) (t : Bytes) : u8 (v :: t) = .ok (v, t) := rfl
 
 theorem u16_append (v : UInt16) (t : Bytes) : u16 (putU16le v ++ t) = .ok (v, t) := by
   simp only [putU16le, u16, List.cons_append, List.nil_append]
-  congr 2; bv_decide
+  congr 2; bv_decide (timeout := 300)
 
 theorem u32_append (v : UInt32) (t : Bytes) : u32 (putU32le v ++ t) = .ok (v, t) := by
   simp only [putU32le, u32, List.cons_append, List.nil_append]
-  congr 2; bv_decide
+  congr 2; bv_decide (timeout := 300)
 
 theorem take_append (w t : Bytes) (n : Nat) (h : w.length = n) : take n (w ++ t) = .ok (w, t) := by
   subst h
